@@ -162,7 +162,7 @@ def _probes(case):
         rng.uniform(lo, hi, n // 3),
         rng.integers(int(math.ceil(lo)), 8001, n // 6).astype(float),
     ]
-    special = [lo, hi, 1000.0, max(lo, 20.0), 8000.0]
+    special = [lo, hi, 1000.0, max(lo, 20.0), 8000.0] + [float(v) for v in range(int(math.ceil(lo)), int(math.ceil(lo)) + 130, 3) if v <= hi]
     for b in R.BARK_BREAKS_HZ:
         if b > lo:
             special += [b, np.nextafter(b, 0), np.nextafter(b, 1e9), b * (1 - 1e-9), b * (1 + 1e-9), b - 1e-3, b + 1e-3,
@@ -189,13 +189,19 @@ def run_case(case, rec, mon=None):
         fwd, inv = R.ref_pair(name, params)
         fs = _probes(case)
         use_np = case.get("np_scalar", False)
-        int_types = [int, np.int64, np.int32]
+        int_types = [int, np.int64, np.int32, np.int16, np.uint16, np.int8, np.uint8]
+
+        def as_int(k, v):
+            """v (whole) in the k-th integer type that can hold it"""
+            for t in int_types[k % len(int_types):] + int_types:
+                if t is int or np.iinfo(t).min <= v <= np.iinfo(t).max:
+                    return t(v)
         for j, f in enumerate(fs):
             f = float(f)
             arg = np.float64(f) if use_np else f
             if f == int(f) and j % 2 == 0:
                 # a whole number of Hertz handed over as an integer type
-                arg = int_types[(j // 2) % 3](f)
+                arg = as_int(j // 2, int(f))
                 rec.count("integer_typed_arguments")
             s = sc.hertz_to_scale(arg)
             f2 = sc.scale_to_hertz(s)
@@ -214,7 +220,7 @@ def run_case(case, rec, mon=None):
         whole = np.arange(math.ceil(s_lo), math.floor(s_hi) + 1)
         if len(whole) > 60:
             whole = rng.choice(whole, 60, replace=False)
-        ss += [int_types[k % 3](w) for k, w in enumerate(whole)]  # whole scale values as integer types
+        ss += [as_int(k, int(w)) for k, w in enumerate(whole)]  # whole scale values as integer types
         rec.count("integer_typed_arguments", len(whole))
         for s in ss:
             f = sc.scale_to_hertz(s)
@@ -280,7 +286,12 @@ def run_case(case, rec, mon=None):
     elif kind == "octave_reject":
         from pydrobert.speech.scales import OctaveScaling
 
-        for low in case["bad"]:
+        bad, good = list(case["bad"]), list(case["good"])
+        if case.get("typed"):
+            # the same contract when the number arrives as a NumPy scalar or a 0-d array
+            bad += [np.int64(0), np.int32(-7), np.uint8(0), np.float32(0), np.float32(-1.5), np.float16(-2), np.array(0.0), np.array(-3), np.int8(-1), np.float64(-0.0)]
+            good += [np.float32(20), np.int64(5), np.uint8(200), np.array(3.0), np.float16(0.5)]
+        for low in bad:
             rec.ev()
             rec.count("octave_constructor_rejections_tried")
             try:
@@ -288,15 +299,15 @@ def run_case(case, rec, mon=None):
             except ValueError:
                 continue
             except Exception as e:  # wrong exception type
-                rec.violation({"what": "OctaveScaling(%r) raised %r, not ValueError" % (low, e), "check": "octave_reject", "arg": low, "case": case})
+                rec.violation({"what": "OctaveScaling(%r) raised %r, not ValueError" % (low, e), "check": "octave_reject", "arg": repr(low), "case": case})
                 continue
-            rec.violation({"what": "OctaveScaling(low_hz=%r) was accepted" % low, "check": "octave_reject", "arg": low, "case": case})
-        for low in case["good"]:
+            rec.violation({"what": "OctaveScaling(low_hz=%r) was accepted" % (low,), "check": "octave_reject", "arg": repr(low), "case": case})
+        for low in good:
             rec.ev()
             try:
                 OctaveScaling(low)
             except Exception as e:
-                rec.violation({"what": "OctaveScaling(low_hz=%r) rejected: %r" % (low, e), "check": "octave_accept", "arg": low, "case": case})
+                rec.violation({"what": "OctaveScaling(low_hz=%r) rejected: %r" % (low, e), "check": "octave_accept", "arg": repr(low), "case": case})
         rec.nt(("octave_reject", tuple(case["bad"])))
         rec.nt(("octave_accept", tuple(case["good"])))
     elif kind == "banks":
@@ -332,6 +343,9 @@ def _cases(tier, seed):
         cfgs.append(("linear", {"low_hz": 0.0, "slope_hz": 1.0}))
         cfgs.append(("octave", {"low_hz": float(np.exp(prng.uniform(np.log(1e-2), np.log(2e3))))}))
         cfgs.append(("octave", {"low_hz": 20.0}))
+        if rep % 2 == 1:
+            cfgs.append(("linear", {"low_hz": int(prng.integers(1, 200)), "slope_hz": int(prng.integers(1, 4))}))  # whole-number parameters as Python ints
+            cfgs.append(("octave", {"low_hz": int(prng.integers(1, 100))}))
         if rep % 2 == 0:
             # any positive low_hz is accepted, however small
             cfgs.append(("octave", {"low_hz": 1e-12 if rep % 4 == 0 else float(10 ** prng.uniform(-14, -2))}))
@@ -341,7 +355,7 @@ def _cases(tier, seed):
     for k in range(2 if tier == "quick" else 16):
         cases.append({"kind": "mutate", "n": 40, "seed": seed, "idx": idx})
         idx += 1
-    cases.append({"kind": "octave_reject", "bad": [0, 0.0, -0.0, -1, -1e-300, -20.0, -1e9], "good": [1e-300, 1e-3, 1.0, 20.0, 4000.0], "seed": seed, "idx": idx})
+    cases.append({"kind": "octave_reject", "bad": [0, 0.0, -0.0, -1, -1e-300, -20.0, -1e9], "good": [1e-300, 1e-3, 1.0, 20.0, 4000.0], "typed": True, "seed": seed, "idx": idx})
     idx += 1
     for k in range(2 if tier == "quick" else 16):
         cases.append({"kind": "banks", "n": 10, "seed": seed, "idx": idx})
